@@ -146,6 +146,22 @@ def str_method(eng, base, attr, node):
             if not eng_.feasible(z3.Length(s) != 1):
                 return Sym(z3.InRe(s, z3.Range(lo, hi)), BOOL)
             raise Unsupported('str.%s on a symbolic string of unknown length' % attr)
+        if attr in ('lstrip', 'rstrip') and len(args) == 1 and isinstance(args[0], str) and args[0]:
+            # strip a set of characters from one end of a string whose length the path fixes: decide character by character
+            n = None if eng_.pure else eng_.fixed_length(base)
+            if n is None:
+                raise Unsupported('str.%s(chars) on a symbolic string of unknown length' % attr)
+            idxs = range(n) if attr == 'lstrip' else range(n - 1, -1, -1)
+            keep = 0
+            for cnt, i in enumerate(idxs):
+                ch = z3.SubString(s, i, 1)
+                if eng_.branch(z3.Or(*[ch == z3.StringVal(c) for c in args[0]])):
+                    keep = cnt + 1
+                    continue
+                break
+            if attr == 'lstrip':
+                return Sym(z3.SubString(s, keep, n - keep), STR)
+            return Sym(z3.SubString(s, 0, n - keep), STR)
         if attr in ('upper', 'lower') and not args:
             # uninterpreted: the same string gives the same result (enough when code and specification both apply it)
             return Sym(_CASEFN[attr](s), STR)
